@@ -16,7 +16,12 @@ import c04lib as L
 
 META = {
     "category": "proof",
-    "text": "Lean theorems on the executable model: probability-array indices (literal_subcoder, dist/align/len coders) are in "
+    "text": "Lean theorems on the executable model: EVERY array access of the executable LZMA1/LZMA2 decoder models (probability "
+            "array, history, input) is within its array on every input, and every dict_get/dict_get0/dict_put/dict_repeat/dict_write "
+            "happens with distance < dict.full and with the C-level index expressions inside the buffer (instrumented variants with "
+            "partial accessors never report out-of-bounds and return exactly the executable result: decoder_accesses_in_bounds); no "
+            "container/Index/VLI/file-info decoder model ever exhausts its loop fuel (fuel independence from the supplied amount "
+            "upward: decoder_fuel_never_exhausted); probability-array index formulas (literal_subcoder, dist/align/len coders) are in "
             "bounds for lc+lp<=4; one LZMA symbol reads at most LZMA_IN_REQUIRED=20 bytes (on the 203 bit shapes and on the executable "
             "symbol decoder itself); every seek request of the file-info decoder model lies inside the file; probabilities stay in [31,2017]; VLI "
             "decoding never exceeds 63 bits; Block Header size bounds; the Index record count is checked against the memory limit "
@@ -519,11 +524,12 @@ def run(ctx):
         ctx.obligation_broken("stage G: Gen/C04.lean cannot be regenerated from the LZMA decoder sources", log)
     # P
     p_ok = ctx.lean_stage(["XzVerif.Props.C04"], exes=["xzm_c04"]) if okg else False
-    # `decoders_total` rests on the cited models being plain total `def`s: no `partial` anywhere in what the proofs import
+    # `decoder_fuel_never_exhausted` and the list of structurally recursive decoders rest on the cited models being plain total
+    # `def`s: no `partial` anywhere in what the proofs import
     for mod, path in sorted(vlib.local_imports("XzVerif.Props.C04").items()):
         src = vlib.strip_lean_comments(open(path).read())
         if re.search(r"\bpartial\s+def\b", src) and mod != "XzVerif.Model.Proto":
-            ctx.obligation_broken("decoders_total: `partial def` in " + mod, mod)
+            ctx.obligation_broken("decoder_fuel_never_exhausted: `partial def` in " + mod, mod)
             p_ok = False
     # B
     exe = build_harness(ctx, "asan")
